@@ -436,6 +436,140 @@ Section Machine.
       + apply (IH (fst (step_tx st x)) j k a n j' ms ok m); [|lia|assumption..].
         destruct Hex as (ms0 & ok0 & l & m0 & Hh0 & Ho & Hm & Hl & Hn0). exists ms0, ok0, l, m0. auto.
   Qed.
+
+  (** ** histories that also contain wrapped submissions
+
+      A wrapped submission behaves like a transaction without messages: refused,
+      no effect.  [erase] makes this precise and transports every theorem about
+      [step_tx] histories to [step_any] histories. *)
+  Context {W : Type}.
+  Notation submission := (@submission T W).
+  Notation step_any := (step_any (W:=W) A_dec auth nonce_of).
+  Notation outcomes_any := (outcomes_any (W:=W) A_dec auth nonce_of).
+  Notation final_any := (final_any (W:=W) A_dec auth nonce_of).
+  Notation executed_any := (executed_any (W:=W) A_dec auth nonce_of).
+
+  Definition erase (x : submission) : list T * bool :=
+    match x with Direct ms ok => (ms, ok) | Wrapped _ _ ok => ([], ok) end.
+
+  Lemma step_any_erase st x : step_any st x = step_tx st (erase x).
+  Proof. destruct x; reflexivity. Qed.
+
+  Lemma outcomes_any_erase h : forall st, outcomes_any st h = outcomes_tx st (map erase h).
+  Proof.
+    induction h as [|x r IH]; intros st; cbn [SigModel.outcomes_any SigModel.outcomes_tx map]; [reflexivity|].
+    rewrite step_any_erase, IH. reflexivity.
+  Qed.
+
+  Lemma final_any_erase h : forall st, final_any st h = final_tx st (map erase h).
+  Proof.
+    induction h as [|x r IH]; intros st; cbn [SigModel.final_any SigModel.final_tx map]; [reflexivity|].
+    rewrite step_any_erase, IH. reflexivity.
+  Qed.
+
+  (** the rule itself: never, and nothing moves -- for every wrapper, every
+      carried messages, every verdict of the other checks *)
+  Theorem wrapped_rejected st (w : W) c ok : step_any st (Wrapped w c ok) = (st, None).
+  Proof. reflexivity. Qed.
+
+  (** in a history: the outcome of a wrapped submission is "rejected" and the
+      state after it is the state before it *)
+  Theorem wrapped_no_effect h : forall st j (w : W) c ok,
+    nth_error h j = Some (Wrapped w c ok) ->
+    nth_error (outcomes_any st h) j = Some None /\
+    final_any st (firstn (S j) h) = final_any st (firstn j h).
+  Proof.
+    induction h as [|x r IH]; intros st j w c ok Hh.
+    - destruct j; discriminate.
+    - destruct j as [|j]; cbn [nth_error firstn SigModel.outcomes_any SigModel.final_any] in Hh |- *.
+      + inversion Hh; subst x. cbn. auto.
+      + exact (IH (fst (step_any st x)) j w c ok Hh).
+  Qed.
+
+  (** whatever is executed is a message of a [Direct] submission *)
+  Theorem executed_any_direct h st j k a n :
+    executed_any st h j k a n -> exists ms ok, nth_error h j = Some (Direct ms ok).
+  Proof.
+    intros (x & l & m & Hh & Ho & _). destruct x as [ms ok|w c ok].
+    - exists ms, ok. exact Hh.
+    - destruct (wrapped_no_effect h st j w c ok Hh) as [Ho' _]. rewrite Ho' in Ho. discriminate.
+  Qed.
+
+  (** no signed message at all -- never executed, executed before, valid for the
+      current sequence, from the future -- is executed through a wrapped
+      submission *)
+  Theorem wrapped_never_executes h st j (w : W) c ok k a n :
+    nth_error h j = Some (Wrapped w c ok) -> ~ executed_any st h j k a n.
+  Proof.
+    intros Hh Hex. destruct (executed_any_direct h st j k a n Hex) as (ms & ok' & Hh'). congruence.
+  Qed.
+
+  Lemma executed_any_erase h st j k a n :
+    executed_any st h j k a n -> executed_at st (map erase h) j k a n.
+  Proof.
+    intros Hex. destruct (executed_any_direct h st j k a n Hex) as (ms & ok & Hd).
+    destruct Hex as (x & l & m & Hh & Ho & Hm & Hl & Hn). rewrite Hd in Hh. inversion Hh; subst x.
+    exists ms, ok, l, m. rewrite <- outcomes_any_erase.
+    split; [|auto]. rewrite nth_error_map, Hd. reflexivity.
+  Qed.
+
+  (** at most once, over all histories that mix direct and wrapped submissions *)
+  Theorem any_each_nonce_once h st j k j' k' a n :
+    executed_any st h j k a n -> executed_any st h j' k' a n -> j = j' /\ k = k'.
+  Proof.
+    intros H H'. exact (tx_each_nonce_once (map erase h) st j k j' k' a n
+                          (executed_any_erase _ _ _ _ _ _ H) (executed_any_erase _ _ _ _ _ _ H')).
+  Qed.
+
+  (** an executed message had the nonce the account's sequence demanded at that
+      point of the history, and the sequence has passed it afterwards *)
+  Theorem executed_any_at_current_sequence h st j k a n :
+    executed_any st h j k a n ->
+    (final_any st (firstn j h) a <= n < final_any st (firstn (S j) h) a)%N.
+  Proof.
+    revert st j. induction h as [|x r IH]; intros st j (y & l & m & Hh & Ho & Hm & Hl & Hn).
+    - destruct j; discriminate.
+    - destruct j as [|j]; cbn [nth_error firstn SigModel.outcomes_any SigModel.final_any] in Hh, Ho |- *.
+      + inversion Hh; subst y. destruct x as [ms ok|w c ok]; [|discriminate].
+        cbn [SigModel.step_any SigModel.msgs_of] in *. inversion Ho as [Ho'].
+        destruct (step_tx_message _ _ _ _ _ _ _ Ho' Hm Hl) as (_ & _ & Hr). lia.
+      + apply IH. exists y, l, m. auto.
+  Qed.
+
+  (** replay through a wrapper: a message executed earlier (at [j]) and carried
+      again by a later wrapped submission (at [j'], position [k']) is not
+      executed there, the wrapped submission is rejected and changes nothing *)
+  Theorem wrapped_replay_rejected h st j k a n j' (w : W) c ok k' :
+    executed_any st h j k a n -> nth_error h j' = Some (Wrapped w c ok) ->
+    ~ executed_any st h j' k' a n /\
+    nth_error (outcomes_any st h) j' = Some None /\
+    final_any st (firstn (S j') h) = final_any st (firstn j' h).
+  Proof.
+    intros _ Hh. split; [exact (wrapped_never_executes h st j' w c ok k' a n Hh)|].
+    exact (wrapped_no_effect h st j' w c ok Hh).
+  Qed.
+
+  (** wrapped submissions can be deleted from a history without changing any
+      outcome of the others or the final state: they are inert *)
+  Theorem wrapped_inert h : forall st,
+    final_any st h = final_any st (filter (fun x => match x with Direct _ _ => true | Wrapped _ _ _ => false end) h).
+  Proof.
+    induction h as [|x r IH]; intros st; [reflexivity|].
+    destruct x as [ms ok|w c ok]; cbn [filter SigModel.final_any].
+    - apply IH.
+    - cbn [SigModel.step_any fst]. apply IH.
+  Qed.
+
+  (** a history of [Direct] submissions only is a [step_tx] history *)
+  Theorem any_direct_only (h : list (list T * bool)) st :
+    outcomes_any st (map (fun x => Direct (fst x) (snd x)) h) = outcomes_tx st h /\
+    final_any st (map (fun x => Direct (fst x) (snd x)) h) = final_tx st h.
+  Proof.
+    rewrite outcomes_any_erase, final_any_erase, map_map.
+    assert (E : map (fun x : list T * bool => erase (Direct (fst x) (snd x))) h = h).
+    { induction h as [|[ms ok] r IH]; cbn; [reflexivity|]. f_equal. exact IH. }
+    rewrite E. auto.
+  Qed.
 End Machine.
 
 (** * the Ethereum route *)
@@ -563,6 +697,58 @@ Section EthRoute.
   Theorem eth_tx_singleton st tx ok :
     step_tx st ([tx], ok) = (fst (step st (tx, ok)), option_map (fun a => [a]) (snd (step st (tx, ok)))).
   Proof. apply step_tx_singleton. Qed.
+
+  (** ** signed Ethereum messages shipped on other routes (wrapped in
+      authz.MsgExec, as plain Cosmos messages, inside EIP-712 Cosmos
+      transactions, ...): histories of [Direct] and [Wrapped] submissions *)
+  Section Wrapped.
+    Context {W : Type}.
+    Notation step_any := (step_eth_any (W:=W) hash recover cfg).
+    Notation outcomes_any := (outcomes_eth_any (W:=W) hash recover cfg).
+    Notation final_any := (final_eth_any (W:=W) hash recover cfg).
+    Notation executed_any := (executed_eth_any (W:=W) hash recover cfg).
+
+    Theorem eth_wrapped_rejected st (w : W) c ok : step_any st (Wrapped w c ok) = (st, None).
+    Proof. reflexivity. Qed.
+
+    Theorem eth_wrapped_no_effect h st j (w : W) c ok :
+      nth_error h j = Some (Wrapped w c ok) ->
+      nth_error (outcomes_any st h) j = Some None /\ final_any st (firstn (S j) h) = final_any st (firstn j h).
+    Proof. apply wrapped_no_effect. Qed.
+
+    Theorem eth_wrapped_never_executes h st j (w : W) c ok k a n :
+      nth_error h j = Some (Wrapped w c ok) -> ~ executed_any st h j k a n.
+    Proof. apply wrapped_never_executes. Qed.
+
+    Theorem eth_wrapped_replay_rejected h st j k a n j' (w : W) c ok k' :
+      executed_any st h j k a n -> nth_error h j' = Some (Wrapped w c ok) ->
+      ~ executed_any st h j' k' a n /\
+      nth_error (outcomes_any st h) j' = Some None /\
+      final_any st (firstn (S j') h) = final_any st (firstn j' h).
+    Proof. apply wrapped_replay_rejected. Qed.
+
+    Theorem eth_executed_only_direct h st j k a n :
+      executed_any st h j k a n ->
+      (exists ms ok, nth_error h j = Some (Direct ms ok)) /\
+      (final_any st (firstn j h) a <= n < final_any st (firstn (S j) h) a)%N.
+    Proof.
+      intros H. split; [exact (executed_any_direct _ _ _ h st j k a n H)|].
+      exact (executed_any_at_current_sequence _ _ _ h st j k a n H).
+    Qed.
+
+    Theorem eth_any_each_nonce_once h st j k j' k' a n :
+      executed_any st h j k a n -> executed_any st h j' k' a n -> j = j' /\ k = k'.
+    Proof. apply any_each_nonce_once. Qed.
+
+    Theorem eth_wrapped_inert h st :
+      final_any st h = final_any st (filter (fun x => match x with Direct _ _ => true | Wrapped _ _ _ => false end) h).
+    Proof. apply wrapped_inert. Qed.
+
+    Theorem eth_any_direct_only (h : list (list eth_tx * bool)) st :
+      outcomes_any st (map (fun x => Direct (fst x) (snd x)) h) = outcomes_eth_tx hash recover cfg st h /\
+      final_any st (map (fun x => Direct (fst x) (snd x)) h) = final_eth_tx hash recover cfg st h.
+    Proof. apply any_direct_only. Qed.
+  End Wrapped.
 
   (** the signature that authenticates: the recovery call that succeeded *)
   Lemma sender_some cid tx a : sender hash recover cid tx = Some a ->
@@ -890,6 +1076,18 @@ Theorem sub_tx_each_nonce_once nd (h : list (list sub * bool)) st j k j' k' a n 
   executed_at N.eq_dec (auth_sub nd) sub_nonce st h j' k' a n -> j = j' /\ k = k'.
 Proof. apply tx_each_nonce_once. Qed.
 
+(** ... also with the wrapped submissions of the correspondence run *)
+Theorem sub_any_each_nonce_once nd (h : list (@submission sub wrap)) st j k j' k' a n :
+  executed_any N.eq_dec (auth_sub nd) sub_nonce st h j k a n ->
+  executed_any N.eq_dec (auth_sub nd) sub_nonce st h j' k' a n -> j = j' /\ k = k'.
+Proof. apply any_each_nonce_once. Qed.
+
+Theorem sub_wrapped_rejected nd st w c ok : step_sub_any nd st (Wrapped w c ok) = (st, None).
+Proof. reflexivity. Qed.
+
+Theorem sub_any_direct nd st ms ok : step_sub_any nd st (Direct ms ok) = step_sub_tx nd st (ms, ok).
+Proof. reflexivity. Qed.
+
 (** on one-unit transactions [step_sub_tx] is [step_sub] *)
 Theorem sub_tx_singleton nd st s ok :
   step_sub_tx nd st ([s], ok) = (fst (step_sub nd st (s, ok)), option_map (fun a => [a]) (snd (step_sub nd st (s, ok)))).
@@ -989,6 +1187,48 @@ Section Examples.
        ([ex_tx 42 7 3], true); ([ex_tx 42 7 3], true)]
     = [Some [A42; A42]; None; None; Some [A42]; None].
   Proof. vm_compute. reflexivity. Qed.
+
+  (** ** wrapped submissions: key 42 (sequence 5) executes nonce 5 on the
+      Ethereum route; the same signed transaction carried by a MsgExec behind a
+      plain message (the replay), the not yet executed nonce 6 carried by a
+      MsgExec, nonce 9 from the future as a plain Cosmos message, a wrapper
+      carrying a replay beside a fresh message -- all rejected, nothing moves;
+      nonce 6 then executes on the Ethereum route, once *)
+  Definition ex_w (before depth : nat) : wrap := mk_wrap None before depth false.
+  Definition ex_wrapped_history : list (@submission eth_tx wrap) :=
+    [ Direct [ex_tx 42 5 1] true;
+      Wrapped (ex_w 1 1) [ex_tx 42 5 1] true;
+      Wrapped (ex_w 0 1) [ex_tx 42 6 2] true;
+      Wrapped (ex_w 0 0) [ex_tx 42 9 3] true;
+      Wrapped (ex_w 2 3) [ex_tx 42 6 2; ex_tx 42 5 1; ex_tx 43 0 1] true;
+      Direct [ex_tx 42 6 2] true;
+      Wrapped (ex_w 1 2) [ex_tx 42 6 2] true;
+      Direct [ex_tx 42 6 2] true ].
+
+  Example ex_wrapped_outcomes :
+    outcomes_eth_any toy_hash toy_recover ex_cfg ex_state ex_wrapped_history
+    = [Some [A42]; None; None; None; None; Some [A42]; None; None] /\
+    seq_of (final_eth_any toy_hash toy_recover ex_cfg ex_state ex_wrapped_history) = (7%N, 0%N) /\
+    seq_of (final_eth_any toy_hash toy_recover ex_cfg ex_state (firstn 5 ex_wrapped_history)) = (6%N, 0%N).
+  Proof. vm_compute. repeat split; reflexivity. Qed.
+
+  (** the premises of the theorems about wrapped histories are satisfiable
+      together: in this history message 0 of submission 0 IS executed (for key
+      42, nonce 5), submission 1 IS a wrapper that carries that very message --
+      and the conclusion holds: it is not executed there *)
+  Example ex_wrapped_premises :
+    executed_eth_any toy_hash toy_recover ex_cfg ex_state ex_wrapped_history 0 0 A42 5%N /\
+    nth_error ex_wrapped_history 1 = Some (Wrapped (ex_w 1 1) [ex_tx 42 5 1] true) /\
+    nth_error (msgs_of (Wrapped (ex_w 1 1) [ex_tx 42 5 1] true)) 0 = Some (ex_tx 42 5 1) /\
+    ~ executed_eth_any toy_hash toy_recover ex_cfg ex_state ex_wrapped_history 1 0 A42 5%N /\
+    executed_eth_any toy_hash toy_recover ex_cfg ex_state ex_wrapped_history 5 0 A42 6%N.
+  Proof.
+    split; [|split; [reflexivity|split; [reflexivity|split]]].
+    - exists (Direct [ex_tx 42 5 1] true), [A42], (ex_tx 42 5 1). vm_compute. repeat split; reflexivity.
+    - apply (eth_wrapped_never_executes toy_hash toy_recover ex_cfg ex_wrapped_history ex_state 1 (ex_w 1 1) [ex_tx 42 5 1] true).
+      reflexivity.
+    - exists (Direct [ex_tx 42 6 2] true), [A42], (ex_tx 42 6 2). vm_compute. repeat split; reflexivity.
+  Qed.
 
   (** a pre-EIP-155 signature is refused while AllowUnprotectedTxs is false *)
   Definition ex_homestead : eth_tx := TxLegacy (mk_legacy 5 1 21000 None 0 [] 27 1 1).
